@@ -545,6 +545,8 @@ func e2s(t types.Type) string { return t.String() }
 //	  ensures err == nil ==> old(err) == nil && comma == "," &&
 //	          (v == nil ? views(out) == views after the token  old(comma) "name" :null
 //	                    : views(out) == views after the token  old(comma) "name" :  followed by Encode(v))
+//	  the token is well-formed for every name when the closure encodes the name as a JSON
+//	  string; when it writes the name raw between quotes, only for names that are "safe"
 //	  ensures jst(old) == 99 ==> jst == 99;  other writers keep their views
 //
 // (a member name is "safe" when the text between the quotes is a JSON string
@@ -590,6 +592,17 @@ func (jf *JSONFamily) installWriteProperty(g, parent *ssa.Function) {
 		jf.note(parent.String() + ": writeProperty closure without the expected captured variables")
 		return
 	}
+	// does the closure encode the member name (json.Marshal) or write it raw?
+	escapes := false
+	for _, b := range g.Blocks {
+		for _, in := range b.Instrs {
+			if call, ok := in.(*ssa.Call); ok {
+				if f := call.Call.StaticCallee(); f != nil && f.String() == "encoding/json.Marshal" {
+					escapes = true
+				}
+			}
+		}
+	}
 	c := newFamilyContract(g)
 	c.Options["family"] = "json-writeProperty"
 	D := func(e *FuncEnc) {
@@ -615,6 +628,9 @@ func (jf *JSONFamily) installWriteProperty(g, parent *ssa.Function) {
 		c0, c1 := e.cellLoad(pre, commaA), e.cellLoad(post, commaA)
 		nil0, nil1 := eq(sx("if_tag", e0), "0"), eq(sx("if_tag", e1), "0")
 		safe := e.safeKeyTerm(name)
+		if escapes {
+			safe = "true"
+		}
 		tokNull := sx("tr_cons", pre.trace, sx("ev_jw_tok", w, itoa(jkKeyNull), c0, name, safe))
 		tokKey := sx("tr_cons", pre.trace, sx("ev_jw_tok", w, itoa(jkKey), c0, name, safe))
 		enc := sx("tr_cons", tokKey, sx("ev_jw_enc", w, v))
